@@ -33,9 +33,9 @@ type resolveCase struct {
 	SelfVersion string    `json:"selfVersion"`
 	Direct      []depSpec `json:"direct"`
 	Lock        []lockPkg `json:"lock"`
-	NoLock      bool      `json:"noLock,omitempty"`   // the Lock object does not exist yet
-	SelfIn      bool      `json:"selfIn,omitempty"`   // the revision is already in the lock
-	Inactive    bool      `json:"inactive,omitempty"` // desired state Inactive
+	NoLock      bool      `json:"noLock,omitempty"`    // the Lock object does not exist yet
+	SelfIn      bool      `json:"selfIn,omitempty"`    // the revision is already in the lock
+	Inactive    bool      `json:"inactive,omitempty"`  // desired state Inactive
 	Relocated   bool      `json:"relocated,omitempty"` // the lock holds this revision under another source (image moved registries)
 }
 
